@@ -17,7 +17,7 @@ use yash_syntax::syntax::List;
 
 const NAMES: [&str; 3] = ["a", "b", "c"];
 /// None = undefined
-const VALUES: [Option<&str>; 23] = [
+const VALUES: [Option<&str>; 28] = [
     None,
     Some(""),
     Some("b"),
@@ -43,6 +43,13 @@ const VALUES: [Option<&str>; 23] = [
     Some("c"),
     Some("c x"),
     Some("x c "),
+    // values that end in a redirection operator and a blank: the operand comes from the next word
+    Some("x < "),
+    Some("> "),
+    Some("x 2>| \t"),
+    // values that start or end with a newline (a line break is allowed after && || | ( { and keywords)
+    Some("\nx"),
+    Some("x\n"),
 ];
 
 const LINES: [&str; 38] = [
@@ -270,18 +277,38 @@ fn refalias(line: &str, table: &[Option<&str>; 3], c_is_global: bool) -> Option<
                 i += 1;
             }
             Tok::Redir(op) => {
-                // operator and its operand (never alias-substituted)
+                // operator and its operand. The operand is an ordinary word as far as "the next word after
+                // an alias value ending in a blank" is concerned (dash, bash and yash agree): when the
+                // operator was the last token of such a value, the operand is checked for aliases
                 out.push(op.clone());
                 i += 1;
-                // skip sentinels
-                while i < toks.len() && toks[i].tok == Tok::BlankEnd {
-                    i += 1;
-                }
-                if i < toks.len() {
-                    if let Tok::Word(w, _) = &toks[i].tok {
-                        out.push(w.clone());
+                // (the first word of a replacement keeps the "to be checked" status of the word it replaces)
+                let mut checked = false;
+                loop {
+                    while i < toks.len() && toks[i].tok == Tok::BlankEnd {
+                        checked = true;
                         i += 1;
                     }
+                    let Some(t2) = toks.get(i).cloned() else { break };
+                    let Tok::Word(w, quoted) = &t2.tok else { break };
+                    if checked && !quoted && !t2.inhibit.contains(w) && lookup(w).is_some() {
+                        steps += 1;
+                        if steps > 10_000 {
+                            return None;
+                        }
+                        let val = lookup(w).unwrap();
+                        let mut inh = t2.inhibit.clone();
+                        inh.insert(w.clone());
+                        let mut rep = tokenize(val, &inh);
+                        if val.ends_with(' ') || val.ends_with('\t') {
+                            rep.push(T { tok: Tok::BlankEnd, inhibit: BTreeSet::new() });
+                        }
+                        toks.splice(i..i + 1, rep);
+                        continue;
+                    }
+                    out.push(w.clone());
+                    i += 1;
+                    break;
                 }
                 at_start = false;
                 check_next = false;
@@ -475,7 +502,7 @@ pub fn run(tier: Tier) -> i32 {
     let cov = json!({
         "evaluations": evals.load(Relaxed),
         "distinct_nontrivial": substituted.load(Relaxed),
-        "rule": format!("every alias table over names a,b,c with each name undefined or one of {} values (empty, other names with and without trailing blank, itself, x, x y, if, !, {{, ;, | x, > f, 'b', \\b, 2>&1 x ) = {} tables x {} command lines placing the names in command, argument, post-assignment, post-redirection, post-keyword, post-! | && ( positions, quoted, and across line continuations (quick: every second (table,line) pair), and the same tables with c marked as a global alias (substituted in any word of a command); the real parser with the alias table must terminate and produce the tree of the hand-substituted text parsed without aliases (Locations erased). Non-trivial = the hand substitution changed the line.", nv - 1, tables.len(), LINES.len()),
+        "rule": format!("every alias table over names a,b,c with each name undefined or one of {} values (empty, other names with and without trailing blank, itself, x, x y, if, !, {{, ;, | x, > f, 'b', \\b, 2>&1 x , values ending in a redirection operator and a blank, values starting / ending with a newline) = {} tables x {} command lines placing the names in command, argument, post-assignment, post-redirection, post-keyword, post-! | && ( positions, quoted, and across line continuations (quick: every second (table,line) pair), and the same tables with c marked as a global alias (substituted in any word of a command); the real parser with the alias table must terminate and produce the tree of the hand-substituted text parsed without aliases (Locations erased). Non-trivial = the hand substitution changed the line.", nv - 1, tables.len(), LINES.len()),
         "samples": samples.take(),
         "tables": tables.len(),
         "lines": LINES.len(),
